@@ -140,6 +140,7 @@ func genHistory(c *ctx) []histStep {
 			o.NDocs = c.R.Intn(12)
 			st.kind = "random"
 		}
+		o.Geo = c.R.Chance(3) // geo-shape fields: the builder keeps their encoded shapes in per-document scratch maps
 		st.b = zh.GenBatch(c.R, o)
 		if st.kind == "synonyms" {
 			st.b = zh.AddSynDocs(c.R, st.b, o.IDBase)
